@@ -15,18 +15,23 @@ namespace QKV.QNoise
   unfold QState.call
   split <;> simp
 
-theorem step_raise_unchanged (rd : Rnd) (s : QState) (op : Op) (h : (s.step rd op).2 = true) :
-    (s.step rd op).1 = s := by
-  cases op <;> simp [QState.step] at h ⊢
-  unfold QState.updateFromVar at h ⊢
-  cases hs : s.store <;> simp [hs] at h ⊢
+/-- no operation of the storage API raises (after the fix of C07-update-from-variable) -/
+theorem step_no_raise (rd : Rnd) (s : QState) (op : Op) : (s.step rd op).2 = false := by
+  cases op <;> simp [QState.step]
+  unfold QState.updateFromVar
+  cases s.store <;> simp
+
+theorem anyRaise_false (rd : Rnd) (ops : List Op) : ∀ s : QState, QState.anyRaise rd s ops = false := by
+  induction ops with
+  | nil => intro s; rfl
+  | cons op ops ih => intro s; simp [QState.anyRaise, step_no_raise, ih]
 
 /-- a float32 variable handed to the update API holds a float32 value -/
 def Op.WF (rd : Rnd) : Op → Prop
   | .updateFromVar v => rd.r32 v = v
   | _ => True
 
-theorem eff_step (rd : Rnd) (s : QState) (op : Op) (hwf : Op.WF rd op) (hnr : (s.step rd op).2 = false) :
+theorem eff_step (rd : Rnd) (s : QState) (op : Op) (hwf : Op.WF rd op) :
     ((s.step rd op).1).eff rd =
       match lastWrite [op] with
       | some v => rd.r32 v
@@ -35,10 +40,10 @@ theorem eff_step (rd : Rnd) (s : QState) (op : Op) (hwf : Op.WF rd op) (hnr : (s
   | build b => simp [QState.step, lastWrite]
   | update v => simp [QState.step, lastWrite]
   | updateFromVar v =>
-    simp only [QState.step, QState.updateFromVar] at hnr ⊢
+    simp only [QState.step, QState.updateFromVar]
     simp only [Op.WF] at hwf
     cases hs : s.store with
-    | py w => simp [hs] at hnr
+    | py w => simp [lastWrite, QState.eff, Store.asF]
     | var w => simp [lastWrite, QState.eff, Store.asF, hwf]
   | setUseVars b => simp [QState.step, lastWrite, QState.eff]
   | call => simp [QState.step, lastWrite]
@@ -48,18 +53,17 @@ theorem lastWrite_cons (op : Op) (ops : List Op) :
   cases op <;> simp [lastWrite]
 
 theorem storage_invariant (rd : Rnd) (ops : List Op) : ∀ (s : QState),
-    (∀ op ∈ ops, Op.WF rd op) → QState.anyRaise rd s ops = false →
+    (∀ op ∈ ops, Op.WF rd op) →
     (QState.run rd s ops).eff rd =
       match lastWrite ops with
       | some v => rd.r32 v
       | none => s.eff rd := by
   induction ops with
-  | nil => intro s _ _; simp [QState.run, lastWrite]
+  | nil => intro s _; simp [QState.run, lastWrite]
   | cons op ops ih =>
-    intro s hwf hnr
-    simp only [QState.anyRaise, Bool.or_eq_false_iff] at hnr
-    have h1 := eff_step rd s op (hwf op (by simp)) hnr.1
-    have h2 := ih (s.step rd op).1 (fun o ho => hwf o (by simp [ho])) hnr.2
+    intro s hwf
+    have h1 := eff_step rd s op (hwf op (by simp))
+    have h2 := ih (s.step rd op).1 (fun o ho => hwf o (by simp [ho]))
     simp only [QState.run]
     rw [h2, lastWrite_cons]
     cases hl : lastWrite ops with
